@@ -14,6 +14,9 @@ var targetFile = map[string]string{
 	"isCallResOK":        "GenFrame",
 	"ChecksumSize":       "GenFrame",
 	"poolIndex":          "GenFrame",
+	"GetContextError":         "GenTTL",
+	"validateRelayMaxTimeout": "GenTTL",
+	"lazyCallReqTTL":          "GenTTL",
 }
 
 // varFields: constant fields of package-level composite-literal variables.
@@ -73,4 +76,20 @@ var targets = []Target{
 	// checksum.go
 	{Func: "ChecksumType.ChecksumSize", Out: "ChecksumSize", Params: "(t : Z)", Ret: "Z",
 		Hints: map[string]string{"crc32.Size": "4"}},
+	// C14: errors.go context-error mapping (cerr: 0 nil, 1 context.DeadlineExceeded, 2 context.Canceled,
+	// other values = any other error, passed through as 256+cerr), relay ttl arithmetic
+	{Func: "GetContextError", Out: "GetContextError", Params: "(cerr : Z)", Ret: "Z",
+		Hints: map[string]string{
+			"err == context.DeadlineExceeded": "(cerr =? 1)",
+			"err == context.Canceled":         "(cerr =? 2)",
+			"ErrTimeout":                      "c_ErrCodeTimeout",
+			"ErrRequestCancelled":             "c_ErrCodeCancelled",
+			"err":                             "(256 + cerr)",
+		}},
+	{Func: "validateRelayMaxTimeout", Out: "validateRelayMaxTimeout", Params: "(d : Z)", Ret: "Z",
+		SHints: map[string]string{
+			"logger.WithFields(\n\tLogField{\"configuredMaxTimeout\", d},\n\tLogField{\"defaultMaxTimeout\", _defaultRelayMaxTimeout},\n).Warn(\"Configured RelayMaxTimeout is invalid, using default instead.\")": "",
+		}},
+	{Func: "lazyCallReq.TTL", Out: "lazyCallReqTTL", Params: "(ttl_field : Z)", Ret: "Z",
+		Hints: map[string]string{"binary.BigEndian.Uint32(f.Payload[_ttlIndex : _ttlIndex+_ttlLen])": "ttl_field"}},
 }
